@@ -18,7 +18,11 @@ OPS = {'add': operator.add, 'sub': operator.sub, 'mul': operator.mul, 'truediv':
        'floordiv': operator.floordiv, 'mod': operator.mod, 'lt': operator.lt, 'le': operator.le,
        'eq': operator.eq, 'ne': operator.ne, 'gt': operator.gt, 'ge': operator.ge}
 KINDS = ['modify', 'insert_rvf', 'product', 'mixture', 'mixture2', 'combine', 'combine', 'matmul', 'uniform',
-         'noisy', 'erasure', 'prune_expand', 'example', 'example', 'stats', 'stats_seq', 'stats_seq']
+         'noisy', 'erasure', 'prune_expand', 'prune_expand_scalar', 'example', 'example', 'stats', 'stats_seq', 'stats_seq']
+# every binary operator of ScalarDistribution; 'div' stands for the methods __div__ / __rdiv__ (documented as division,
+# not bound to an operator symbol under Python 3), which are called by name
+ALL_OPS = sorted(OPS) + ['div']
+DIVIDING = ('truediv', 'floordiv', 'mod', 'div')
 STAT_NAMES = ['mean', 'central_moment', 'standard_deviation', 'standard_moment', 'median', 'mode']
 
 
@@ -38,13 +42,19 @@ class C11(object):
             "query judged against the definitions on the table the history specifies. Source distributions in 6 bases "
             "where the constructor supports them. Non-trivial = the "
             "result merges at least two source outcomes or has >= 3 outcomes (stats_seq: a query after a change of a "
-            "table with >= 2 positive outcomes)")
+            "table with >= 2 positive outcomes). Once per run whatever the seed (gen_sweep): each of the 12 operators and "
+            "the methods __div__/__rdiv__ in each operand form dist-dist / dist-number / number-dist (reflected methods), "
+            "b.__rmatmul__(a), @ of operands in different bases, product_distribution(base=), mixture_distribution("
+            "merge=False) on components listing the same outcomes or sharing one sample space, expanded_samplespace with "
+            "given alphabets, ScalarDistributions through pruned_samplespace / expanded_samplespace(d, alphabets)")
     tolerances = {'tables': 'exact when all probabilities are dyadic and the base is linear, else rtol 1e-9; statistics 1e-12 relative'}
     exhaustive = {}
 
     # ------------------------------------------------------------------ generation
     def gen(self, rng, tier):
         n_cases = 365 if tier == 'quick' else 45000
+        for c in self.gen_sweep(rng):
+            yield self.desubnull(c)
         for _ in range(n_cases):
             kind = rng.choice(KINDS)
             yield self.desubnull(getattr(self, 'gen_' + kind)(rng))
@@ -63,9 +73,29 @@ class C11(object):
                 cls.desubnull(v)
         return c
 
-    def scalar_case(self, rng, base=None):
+    def gen_sweep(self, rng):
+        """Every entry point and option once per run, whatever the seed: each operator in each operand form (the
+        reflected methods __radd__, __rmul__, __rtruediv__, __rfloordiv__, ... are reached by number-op-distribution
+        only, and a division needs a divisor without the outcome 0), the reflected @, product_distribution(base=),
+        mixture_distribution(merge=False), explicit alphabets for expanded_samplespace, scalar distributions through
+        pruned_samplespace / expanded_samplespace."""
+        for op in ALL_OPS:
+            for form in ('dd', 'dn', 'nd'):
+                yield self.gen_combine(rng, op=op, form=form)
+        yield self.gen_matmul(rng, reflected=True)
+        yield self.gen_matmul(rng, reflected=False, anybase=True)
+        for ob in ('linear', 2, 0.5):
+            yield self.gen_product(rng, outbase=ob)
+        for shape in ('same-outs', 'same-outs', 'common-space', 'common-space'):
+            yield self.gen_mixture(rng, shape=shape, merge=False)
+        for union in (True, False):
+            yield self.gen_prune_expand(rng, explicit=True, union=union)
+        for _ in range(4):
+            yield self.gen_prune_expand_scalar(rng)
+
+    def scalar_case(self, rng, base=None, nonzero=False):
         k = rng.randint(1, 4)
-        outs = sorted(rng.sample(range(-3, 6), k))
+        outs = sorted(rng.sample([x for x in range(-3, 6) if x or not nonzero], k))
         pv, _ = gen.rand_prob_vector(rng, k, rng.choice(['dyadic', 'small', 'uneven']))
         return {'outs': outs, 'pmf': [str(p) for p in pv], 'base': base or rng.choice(gen.BASES)}
 
@@ -82,7 +112,7 @@ class C11(object):
                   'index': rng.choice([-1] + list(range(c['n'] + 1)))})
         return c
 
-    def gen_product(self, rng):
+    def gen_product(self, rng, outbase=None):
         c = gen.rand_dist_case(rng, nmin=2, nmax=4)
         n = c['n']
         vars_ = list(range(n))
@@ -96,9 +126,12 @@ class C11(object):
             if rng.random() < 0.3 and len(groups) > 1:
                 groups = groups[:-1]
         c.update({'kind': 'product', 'groups': groups, 'byname': bool(c['names']) and rng.random() < 0.5})
+        # product_distribution(..., base=): the base the product is to be returned in
+        c['outbase'] = outbase if outbase is not None else (rng.choice(gen.BASES) if rng.random() < 0.3 else None)
         return c
 
-    def gen_mixture(self, rng):
+    def gen_mixture(self, rng, shape=None, merge=None):
+        shape = shape or rng.choice(['free', 'free', 'free', 'same-outs', 'common-space'])
         base = rng.choice(gen.BASES)
         klass = rng.choice(['str', 'tuple'])
         n = rng.randint(1, 3)
@@ -108,10 +141,28 @@ class C11(object):
                                    allow_names=False, zeros=False)
             comps.append({'outs': c['outs'], 'pmf': c['pmf']})
         w, _ = gen.rand_prob_vector(rng, len(comps), rng.choice(['dyadic', 'small']))
-        return {'kind': 'mixture', 'klass': klass, 'n': n, 'base': base, 'comps': comps, 'w': [str(x) for x in w]}
+        c = {'kind': 'mixture', 'klass': klass, 'n': n, 'base': base, 'comps': comps, 'w': [str(x) for x in w],
+             'shape': shape}
+        if shape == 'same-outs':
+            # the components list the same outcomes: both merge=True and merge=False are legal
+            for comp in comps[1:]:
+                pv, _ = gen.rand_prob_vector(rng, len(comps[0]['outs']), rng.choice(['uneven', 'dyadic', 'small']))
+                comp['outs'] = comps[0]['outs']
+                comp['pmf'] = [str(p) for p in pv]
+            c['merge'] = rng.random() < 0.5 if merge is None else merge
+        elif shape == 'common-space':
+            # the components store different outcomes of one common sample space ("each distribution is assumed to have
+            # the same base and sample space"): merge=False is legal, an outcome a component does not store reads as 0
+            c['space'] = sorted(set(tuple(o) for comp in comps for o in comp['outs']))
+            c['space'] = [list(o) for o in c['space']]
+            c['merge'] = rng.random() < 0.3 if merge is None else merge
+        else:
+            c['merge'] = True
+        return c
 
     def gen_mixture2(self, rng):
-        c = self.gen_mixture(rng)
+        c = self.gen_mixture(rng, shape='free')
+        c.pop('merge')
         outs = c['comps'][0]['outs']
         for comp in c['comps']:
             pv, _ = gen.rand_prob_vector(rng, len(outs), rng.choice(['uneven', 'near-degenerate']))
@@ -120,17 +171,23 @@ class C11(object):
         c['kind'] = 'mixture2'
         return c
 
-    def gen_combine(self, rng):
-        a = self.scalar_case(rng)
-        b = self.scalar_case(rng, base=rng.choice([a['base'], 'linear'] + list(gen.BASES)))   # any pair of bases
-        form = rng.choice(['dd', 'dd', 'dn', 'nd'])
-        return {'kind': 'combine', 'a': a, 'b': b, 'op': rng.choice(sorted(OPS)), 'form': form,
+    def gen_combine(self, rng, op=None, form=None):
+        forced = op is not None
+        op = op or rng.choice(ALL_OPS)
+        form = form or rng.choice(['dd', 'dd', 'dn', 'nd'])
+        # a forced division gets a divisor that cannot be 0 (otherwise the case is skipped as outside the domain)
+        a = self.scalar_case(rng, nonzero=forced and op in DIVIDING and form == 'nd')
+        b = self.scalar_case(rng, base=rng.choice([a['base'], 'linear'] + list(gen.BASES)),   # any pair of bases
+                             nonzero=forced and op in DIVIDING and form == 'dd')
+        return {'kind': 'combine', 'a': a, 'b': b, 'op': op, 'form': form,
                 'num': rng.choice([-2, 1, 2, 3])}
 
-    def gen_matmul(self, rng):
+    def gen_matmul(self, rng, reflected=None, anybase=None):
         a = self.scalar_case(rng)
-        b = self.scalar_case(rng, base=a['base'])
-        return {'kind': 'matmul', 'a': a, 'b': b}
+        anybase = rng.random() < 0.4 if anybase is None else anybase
+        b = self.scalar_case(rng, base=rng.choice(gen.BASES) if anybase else a['base'])
+        # reflected: the same joint asked of the right operand, b.__rmatmul__(a)
+        return {'kind': 'matmul', 'a': a, 'b': b, 'reflected': rng.random() < 0.3 if reflected is None else reflected}
 
     def gen_uniform(self, rng):
         return {'kind': 'uniform', 'which': rng.choice(['scalar', 'dist-int', 'dist-alph', 'like', 'outcomes']),
@@ -147,11 +204,29 @@ class C11(object):
         c.update({'kind': 'erasure', 'eps': str(rng.choice([Fraction(0), Fraction(1, 2), Fraction(1, 4), Fraction(1)]))})
         return c
 
-    def gen_prune_expand(self, rng):
+    def gen_prune_expand(self, rng, explicit=None, union=None):
         c = gen.rand_dist_case(rng, nmin=1, nmax=3)
-        c.update({'kind': 'prune_expand', 'union': rng.random() < 0.5, 'sparse': rng.random() < 0.5, 'trim': False,
+        c.update({'kind': 'prune_expand', 'union': rng.random() < 0.5 if union is None else union,
+                  'sparse': rng.random() < 0.5, 'trim': False,
                   'keep_seed': rng.randrange(2 ** 31) if rng.random() < 0.6 else None})
+        if rng.random() < 0.3 if explicit is None else explicit:
+            # expanded_samplespace(d, alphabets): one alphabet per variable, each the variable's alphabet and these extras
+            c['alph_extra'] = [sorted(rng.sample(range(6), rng.randint(0, 2))) for _ in range(c['n'])]
+            c['alph_form'] = rng.choice(['list', 'tuple'])
         return c
+
+    def gen_prune_expand_scalar(self, rng):
+        """A ScalarDistribution (outcomes: numbers or one-letter strings) through pruned_samplespace (with and without
+        outcomes to keep) and expanded_samplespace(d, alphabets) with alphabets = the new sample space."""
+        klass = rng.choice(['tuple', 'tuple2', 'str2'])
+        k = rng.randint(1, 5)
+        ranks = sorted(rng.sample(range(8), k))
+        pv, _ = gen.rand_prob_vector(rng, k)
+        rest = [x for x in range(10) if x not in ranks]
+        return {'kind': 'prune_expand_scalar', 'klass': klass, 'outs': [[x] for x in ranks], 'pmf': [str(p) for p in pv],
+                'base': rng.choice(gen.BASES), 'sparse': rng.random() < 0.5, 'trim': rng.random() < 0.5,
+                'keep': [x for x in ranks if rng.random() < 0.4] if rng.random() < 0.6 else None,
+                'extra': sorted(rng.sample(rest, rng.randint(0, 3)))}
 
     def gen_example(self, rng):
         which = rng.choice(['giant_bit', 'n_mod_m', 'iid_sum', 'summed_dice', 'gates', 'binomial', 'hypergeometric',
@@ -373,17 +448,21 @@ class C11(object):
         names = case.get('names')
         d = gen.build(case)
         groups = case['groups']
+        outbase = case.get('outbase')
+        kw = {} if outbase is None else {'base': outbase}
+        eb = case['base'] if outbase is None else outbase      # the base the product is to come back in
+        r.features.append('outbase=%s' % (outbase,))
         if groups is None:
-            p = dit.product_distribution(d)
+            p = dit.product_distribution(d, **kw)
             g = [[i] for i in range(case['n'])]
         else:
             # product_distribution takes each group's marginal, and marginal() keeps variable order:
             # within a group the variables come out sorted by index
             g = [sorted(x) for x in groups]
             if case['byname']:
-                p = dit.product_distribution(d, [[names[i] for i in x] for x in groups], rv_mode='names')
+                p = dit.product_distribution(d, [[names[i] for i in x] for x in groups], rv_mode='names', **kw)
             else:
-                p = dit.product_distribution(d, groups, rv_mode='indices')
+                p = dit.product_distribution(d, groups, rv_mode='indices', **kw)
         tab = [[gen.from_py(o, klass), q(Fraction(gen.lin_of(v, case['base'])))] for o, v in zip(d.outcomes, d.pmf)]
         src = {tuple(o): Fraction(pp) for o, pp in zip(case['outs'], case['pmf'])}
         tab = [[list(o), q(src.get(o, 0))] for o in [tuple(gen.from_py(x, klass)) for x in d.outcomes]]
@@ -392,7 +471,7 @@ class C11(object):
         got = {tuple(gen.from_py(o, klass)): float(v) for o, v in zip(p.outcomes, p.pmf)}
         r.features.append('byname=%s' % case['byname'])
         r.nontrivial = len(g) >= 2 and len(want) >= 3
-        r.mismatch = self.table_agrees(got, want, case['base'], False)
+        r.mismatch = self.table_agrees(got, want, eb, False)
         # oracle: product of marginals, group marginals preserved
         ref = {}
         margs = []
@@ -408,9 +487,9 @@ class C11(object):
             for _, v in combo:
                 val *= v
             ref[key] = ref.get(key, 0) + val
-        r.oracle_fail = self.table_agrees(got, ref, case['base'], False)
-        if not r.oracle_fail and p.get_base() != case['base']:
-            r.oracle_fail = 'base of the product is %r, source %r' % (p.get_base(), case['base'])
+        r.oracle_fail = self.table_agrees(got, ref, eb, False)
+        if not r.oracle_fail and p.get_base() != eb:
+            r.oracle_fail = 'base of the product is %r, source %r, requested %r' % (p.get_base(), case['base'], outbase)
 
     def run_mixture(self, case, drv, r, aligned=False):
         dit = import_dit()
@@ -420,7 +499,11 @@ class C11(object):
         for comp in case['comps']:
             outs = [gen.to_py(o, klass) for o in comp['outs']]
             vals = [gen.log_of(Fraction(p), base) for p in comp['pmf']]
-            ds.append(dit.Distribution(outs, vals, base=base, trim=False, sparse=True))
+            if case.get('space'):
+                ds.append(dit.Distribution(outs, vals, base=base, trim=False, sparse=True,
+                                           sample_space=[gen.to_py(o, klass) for o in case['space']]))
+            else:
+                ds.append(dit.Distribution(outs, vals, base=base, trim=False, sparse=True))
         w = [Fraction(x) for x in case['w']]
         wv = [gen.log_of(x, base) for x in w]
         if aligned:
@@ -428,6 +511,11 @@ class C11(object):
         else:
             same = all(set(map(tuple, c['outs'])) == set(map(tuple, case['comps'][0]['outs'])) for c in case['comps'])
             merge = True if not same else bool(len(case['comps']) % 2)
+            if 'merge' in case:
+                # merge=False is legal when every component can be asked for every outcome: the same outcomes listed,
+                # or one common sample space
+                merge = case['merge'] or not (same or case.get('space'))
+            r.features += ['merge=%s' % merge, 'shape=%s' % case.get('shape')]
             m = dit.mixture_distribution(ds, wv, merge=merge)
         tabs = []
         for dd, comp in zip(ds, case['comps']):
@@ -455,7 +543,8 @@ class C11(object):
         dit = import_dit()
         a, b = case['a'], case['b']
         opn, form = case['op'], case['form']
-        op = OPS[opn]
+        # __div__ / __rdiv__ are documented as the division X / Y (their examples are those of __truediv__)
+        op = OPS['truediv' if opn == 'div' else opn]
         da, db = self.scalar_build(a), self.scalar_build(b)
         ta = [[q(Fraction(o)), q(Fraction(p))] for o, p in zip(a['outs'], a['pmf'])]
         tb = [[q(Fraction(o)), q(Fraction(p))] for o, p in zip(b['outs'], b['pmf'])]
@@ -465,11 +554,13 @@ class C11(object):
         elif form == 'nd':
             ta, tb = [[num, 1]], ta
         r.features += ['op=%s' % opn, 'form=%s' % form]
-        mo = drv.call('combine', [opn, ta, tb])
+        mo = drv.call('combine', ['truediv' if opn == 'div' else opn, ta, tb])
         if mo is None:
             r.features.append('division-by-zero-skipped')
             return
-        if form == 'dd':
+        if opn == 'div':
+            res = da.__div__(db) if form == 'dd' else da.__div__(num) if form == 'dn' else da.__rdiv__(num)
+        elif form == 'dd':
             res = op(da, db)
         elif form == 'dn':
             res = op(da, num)
@@ -504,7 +595,8 @@ class C11(object):
         dit = import_dit()
         a, b = case['a'], case['b']
         da, db = self.scalar_build(a), self.scalar_build(b)
-        res = da @ db
+        r.features += ['reflected=%s' % bool(case.get('reflected')), 'samebase=%s' % (a['base'] == b['base'])]
+        res = db.__rmatmul__(da) if case.get('reflected') else da @ db
         ta = [[q(Fraction(o)), q(Fraction(p))] for o, p in zip(a['outs'], a['pmf'])]
         tb = [[q(Fraction(o)), q(Fraction(p))] for o, p in zip(b['outs'], b['pmf'])]
         mo = drv.call('matmul', [ta, tb])
@@ -515,6 +607,8 @@ class C11(object):
         r.oracle_fail = r.mismatch
         if not r.oracle_fail and (not res.is_joint() or res.outcome_length() != 2):
             r.oracle_fail = '@ did not produce a joint distribution of two variables'
+        if not r.oracle_fail and res.get_base() != a['base']:
+            r.oracle_fail = 'result base %r, left operand base %r' % (res.get_base(), a['base'])
 
     def run_uniform(self, case, drv, r):
         dit = import_dit()
@@ -618,7 +712,16 @@ class C11(object):
             keep = [o for o in src['space'] if kr.random() < 0.4]
         r.features.append('keep=%d' % len(keep))
         pd = pruned_samplespace(d, [gen.to_py(o, klass) for o in keep]) if keep else pruned_samplespace(d)
-        ed = expanded_samplespace(d, union=case['union'])
+        given = None
+        if case.get('alph_extra') is not None:
+            # explicit alphabets (sorted, as the default ones are): the variable's alphabet plus extra symbols
+            given = [sorted(set(a) | set(x)) for a, x in zip(src['alphabets'], case['alph_extra'])]
+            u = gen.UNIVERSE[klass]
+            seq = list if case.get('alph_form') == 'list' else tuple
+            ed = expanded_samplespace(d, [seq(u[s] for s in a) for a in given], union=case['union'])
+        else:
+            ed = expanded_samplespace(d, union=case['union'])
+        r.features.append('alphabets=%s' % ('default' if given is None else 'given-' + str(case.get('alph_form'))))
         positive = [o for o in src['space'] if o in positive or o in keep]
         op_, oe = gen.obs_py(pd, klass), gen.obs_py(ed, klass)
         r.nontrivial = len(positive) < len(src['space'])
@@ -629,13 +732,14 @@ class C11(object):
             r.oracle_fail = 'pruning changed a probability'
         else:
             n = case['n']
-            alph = [sorted(set(a)) for a in src['alphabets']]
+            alph = [sorted(set(a)) for a in src['alphabets']] if given is None else given
             if case['union']:
                 un = sorted(set().union(*alph))
                 alph = [un] * n
             want_space = [list(o) for o in itertools.product(*alph)]
             if sorted(map(tuple, oe['space'])) != sorted(map(tuple, want_space)):
-                r.oracle_fail = 'expanded sample space is not the Cartesian product of the alphabets'
+                r.oracle_fail = 'expanded sample space is not the Cartesian product of the %salphabets%s' % (
+                    'union of the ' if case['union'] else '', '' if given is None else ' given: %s' % given)
             elif any(abs(look(oe).get(tuple(o), 0.0) - p) > 1e-8 for o, p in look(src).items()):
                 r.oracle_fail = 'expansion changed a probability'
             elif abs(sum(look(oe).values()) - sum(look(src).values())) > 1e-7:   # entries within the null tolerance may be dropped
@@ -643,7 +747,9 @@ class C11(object):
         # correspondence with Core/PruneExpand.lean (the rebuilt distribution's whole observable record)
         if base == 'linear' and not r.oracle_fail:
             dj = gen.dist_json(d, klass)
-            for name, args, ob in (('prune', [dj, keep], op_), ('expand', [dj, bool(case['union'])], oe)):
+            # expansion with given alphabets = default expansion of the same table seated on their Cartesian product
+            de = dj if given is None else [['cart', given]] + dj[1:]
+            for name, args, ob in (('prune', [dj, keep], op_), ('expand', [de, bool(case['union'])], oe)):
                 mo = drv.call(name, args)
                 if mo[0] != 'ok':
                     r.mismatch = '%s: the model rejects the rebuilt distribution (%s)' % (name, mo[1])
@@ -651,6 +757,74 @@ class C11(object):
                 diff = gen.compare_obs(ob, gen.obs_model(mo[1]), exact=False)
                 if diff:
                     r.mismatch = '%s: %s' % (name, diff)
+                    break
+
+    def run_prune_expand_scalar(self, case, drv, r):
+        dit = import_dit()
+        from dit.algorithms import pruned_samplespace, expanded_samplespace
+        klass, base = case['klass'], case['base']
+        u = gen.UNIVERSE[klass]
+        inv = {s: i for i, s in enumerate(u)}
+        ranks = [o[0] for o in case['outs']]
+        T = {x: Fraction(p) for x, p in zip(ranks, case['pmf'])}
+        d = dit.ScalarDistribution([u[x] for x in ranks], [gen.log_of(T[x], base) for x in ranks], base=base,
+                                   sparse=case['sparse'], trim=case['trim'])
+        keep = case['keep']
+        r.features += ['klass=%s' % klass, 'keep=%s' % (None if keep is None else len(keep)), 'extra=%d' % len(case['extra'])]
+        r.nontrivial = any(p == 0 for p in T.values()) or bool(case['extra'])
+
+        def obs(x):
+            sp = list(x.sample_space())
+            return {'space': [[inv[o]] for o in sp], 'alphabets': [sorted(inv[o] for o in x.alphabet)],
+                    'tab': [[[inv[o]], float(v)] for o, v in zip(x.outcomes, x.pmf)], 'sparse': bool(x.is_sparse()),
+                    'base': x.get_base(), 'lookups': [float(x[o]) for o in sp]}
+
+        def judge(x, what, want_space):
+            if type(x) is not dit.ScalarDistribution or x.is_joint():
+                return '%s of a ScalarDistribution is a %s' % (what, type(x).__name__)
+            if x.get_base() != base:
+                return '%s: base %r, source %r' % (what, x.get_base(), base)
+            ob = obs(x)
+            if sorted(o[0] for o in ob['space']) != sorted(want_space):
+                return '%s: sample space %s, expected %s' % (what, [o[0] for o in ob['space']], sorted(want_space))
+            got = {(o[0],): v for o, v in zip(ob['space'], ob['lookups'])}
+            bad = self.table_agrees(got, {(x_,): T.get(x_, Fraction(0)) for x_ in want_space}, base, False)
+            if bad:
+                return '%s changed a probability: %s' % (what, bad)
+            return None
+
+        # pruned: the outcomes that are not exactly null, plus the null outcomes to keep
+        pd = pruned_samplespace(d) if keep is None else pruned_samplespace(d, [u[x] for x in keep])
+        want_p = [x for x in ranks if T[x] != 0 or x in (keep or [])]
+        # expanded with given alphabets: the sample space given (the old one and extra outcomes)
+        want_e = sorted(ranks + case['extra'])
+        ed = expanded_samplespace(d, [u[x] for x in want_e], union=bool(len(case['extra']) % 2))
+        r.oracle_fail = judge(pd, 'pruned_samplespace', want_p) or judge(ed, 'expanded_samplespace', want_e)
+        # expanded with the default alphabets=None: the one variable's alphabet, i.e. the (sorted) old sample space
+        # (this call used to raise TypeError for every ScalarDistribution; repaired in /repo 511aef5)
+        ed0 = None
+        if not r.oracle_fail:
+            try:
+                ed0 = expanded_samplespace(d, union=bool(len(ranks) % 2))
+            except Exception as e:  # noqa
+                r.oracle_fail = 'expanded_samplespace(d) with the default alphabets raised %s: %s for the ScalarDistribution %s' % (
+                    type(e).__name__, str(e)[:120], dict(zip(d.outcomes, d.pmf)))
+            else:
+                r.oracle_fail = judge(ed0, 'expanded_samplespace (default alphabets)', ranks)
+        # correspondence with Core/PruneExpand.lean: the scalar distribution as a joint of one variable
+        if base == 'linear' and not r.oracle_fail:
+            tab = [[[inv[o]], q(Fraction(float(v)))] for o, v in zip(d.outcomes, d.pmf)]
+            dj = [['expl', [[inv[o]] for o in d.sample_space()]], tab, bool(d.is_sparse()), gen.BASE_ID[base]]
+            de = [['cart', [want_e]]] + dj[1:]
+            for name, args, x in (('prune', [dj, [[k] for k in (keep or [])]], pd), ('expand', [de, False], ed),
+                                  ('expand', [dj, False], ed0)):
+                mo = drv.call(name, args)
+                if mo[0] != 'ok':
+                    r.mismatch = '%s: the model rejects the rebuilt distribution (%s)' % (name, mo[1])
+                    break
+                diff = gen.compare_obs(obs(x), gen.obs_model(mo[1]), exact=False)
+                if diff:
+                    r.mismatch = '%s (scalar): %s' % (name, diff)
                     break
 
     def run_example(self, case, drv, r):
